@@ -204,16 +204,78 @@ def gen_record(rng, cls=None, nmax=40):
                 missing=sorted(missing), lead=lead, trail=trail)
 
 
+def refine(rng, rec, island=True):
+    """The same record with the water level logged `fine` (3, or 2 where the step is not a multiple of 3) times
+    per rainfall step: fine samples linearly interpolated between the grid-instant values, every outage of the
+    record widened by up to fine-1 fine samples on either side, and (island=True) between two outages a short
+    island of 1..fine-1 readings strictly between two neighbouring grid instants g, g+1 that are both lost: `load`
+    numbers the island as a gap-free record of its own, which contains no grid instant, so that the data-interval
+    numbers stored in grid_time have a hole (e.g. 1 and 3).  Records too short for that are returned unchanged."""
+    step, n = rec['step'], len(rec['zeta'])
+    if n < 6 or 'fine' in rec:
+        return rec
+    fine = 3 if step % 3 == 0 else 2
+    if step % fine:
+        return rec
+    miss = set(rec['missing'])
+    g = None
+    if island:
+        cands = [a for a in range(2, n - 3) if a in miss and a + 1 in miss]
+        if cands and rng.random() < 0.5:
+            g = rng.choice(cands)
+        else:
+            g = rng.randrange(2, n - 3)     # >= 2 samples before the first outage and >= 2 after the second
+            miss |= {g, g + 1}
+    fmiss = set()
+    grid_miss = sorted(miss)
+    i = 0
+    while i < len(grid_miss):
+        j = i
+        while j + 1 < len(grid_miss) and grid_miss[j + 1] == grid_miss[j] + 1:
+            j += 1
+        lo = grid_miss[i] * fine - rng.randrange(0, fine)
+        hi = grid_miss[j] * fine + rng.randrange(0, fine)
+        fmiss |= set(range(lo, hi + 1))
+        i = j + 1
+    isl = []
+    if g is not None:
+        between = list(range(g * fine + 1, (g + 1) * fine))
+        isl = between if rng.random() < 0.6 else [rng.choice(between)]
+        fmiss -= set(isl)
+    out = dict(rec)
+    out.update(fine=fine, fine_missing=sorted(fmiss), island=isl, missing=grid_miss)
+    return out
+
+
+def fine_share(recs, rng, every=4, phase=2):
+    """Every `every`-th record (from index `phase`) refined, most of them with an island."""
+    return [refine(rng, rec, island=(rng.random() < 0.8)) if k % every == phase else rec
+            for k, rec in enumerate(recs)]
+
+
 def to_dataset(rec, shift=0, tz='UTC', fmt_time=None):
-    """Rainfall covers `lead` steps before and `trail` after the water-level span."""
+    """Rainfall covers `lead` steps before and `trail` after the water-level span.
+    With rec['fine'] = f > 1 the water level is written every step/f seconds (see `refine`), without the fine
+    samples listed in rec['fine_missing']; rec['missing'] is then only informative."""
     step, t0, n = rec['step'], rec['t0'] + shift, len(rec['rain'])
     lead, trail = rec['lead'], rec['trail']
     rain = [(t0 + (i - lead) * step, 0.0) for i in range(lead)]
     rain += [(t0 + i * step, r) for i, r in enumerate(rec['rain'])]
     rain += [(t0 + (n + i) * step, 0.0) for i in range(trail)]
     et = [(t, 0.125) for t, _ in rain] + [(rain[-1][0] + step, 0.125)]
-    miss = set(rec['missing'])
-    wl = [(t0 + i * step, z) for i, z in enumerate(rec['zeta']) if i not in miss]
+    fine = rec.get('fine', 1)
+    if fine > 1:
+        assert step % fine == 0, (step, fine)
+        fs, z, fmiss = step // fine, rec['zeta'], set(rec['fine_missing'])
+        wl = []
+        for f in range((len(z) - 1) * fine + 1):
+            if f in fmiss:
+                continue
+            i, r = divmod(f, fine)
+            wl.append((t0 + f * fs, z[i] if r == 0 else z[i] + (z[i + 1] - z[i]) * r / fine))
+    else:
+        miss = set(rec['missing'])
+        wl = [(t0 + i * step, z) for i, z in enumerate(rec['zeta']) if i not in miss]
     kw = {}
     if fmt_time is not None:
         kw['fmt_time'] = fmt_time
